@@ -109,7 +109,14 @@ fam('hash', depth=3, maxstack=3,
 
 KI = [i(1), i(2), i(3)]
 fam('coll', depth=4, maxstack=4,
-    inits=[(S(SET(INT), ('set', ())),), (S(MAP(INT, STR), ('map', ())),)],
+    inits=[(S(SET(INT), ('set', ())),), (S(MAP(INT, STR), ('map', ())),), (S(MAP(INT, STR), ('map', ((i(1), s('')), (i(3), s('w'))))),)],
     alphabet=[PUSH(INT, i(2)), PUSH(INT, i(1)), PUSH(INT, i(3)), PUSH(BOOL, T_), PUSH(BOOL, F_), PUSH(OPT(STR), some(s(''))), PUSH(OPT(STR), some(s('w'))),
               PUSH(OPT(STR), none), ('UPDATEK',), ('MEM',), ('GETK',), ('GET_AND_UPDATE',), ('SIZE',), DUP(1), DUP(2), DUP(3), DROP(1),
               ('ITER', (DROP(1),)), ('MAP', (('CDR',), ('SIZE',)))])
+
+# lookups in non-empty maps whose values are falsy Python objects once projected ("" / False / empty list): present is present
+fam('collget', depth=3, maxstack=3,
+    inits=[(S(MAP(INT, STR), ('map', ((i(1), s('')), (i(3), s('w'))))),), (S(MAP(STR, BOOL), ('map', ((s(''), F_), (s('a'), T_)))),),
+           (S(MAP(INT, LIST(INT)), ('map', ((i(0), lst()), (i(2), lst(i(0)))))),), (S(MAP(INT, OPT(INT)), ('map', ((i(1), none), (i(2), some(i(0)))))),)],
+    alphabet=[PUSH(INT, i(1)), PUSH(INT, i(2)), PUSH(INT, i(0)), PUSH(STR, s('')), PUSH(STR, s('a')), ('GETK',), ('MEM',), ('IF_NONE', (('UNIT',), ('FAILWITH',)), ()),
+              ('SIZE',), DUP(2), ('SWAP',)])
